@@ -185,6 +185,24 @@ PROPS["C11"] = dict(
     assumptions=["rights and paths are generated inside C16's judged domain", "token expiry is observed through a verif accessor that ages the token, not by waiting"],
 )
 
+PROPS["C20"] = dict(
+    bin="race", level="fault_enumeration", shards={"quick": 16, "thorough": 16},
+    timeout={"quick": 1500, "thorough": 3400},
+    rule=("a scriptable fake RTSP camera behind a directory route; scripts = handshake step {CONNECT, OPTIONS, DESCRIBE, SETUP1, SETUP2, PLAY, "
+          "PLAYING} x response kind {4xx, 5xx, malformed status line, garbage bytes, silence, RST, early EOF, 401 repeated, malformed SDP, "
+          "SDP media section without formats} (inapplicable pairs dropped) with camera authentication none/Basic/Digest, plus success scripts "
+          "(camera disconnects after 150 packets) per authentication kind; requester = HTTP-FLV or RTSP play; NetTimeout overridden to 1.2 s; "
+          "after every script a second request must reach the camera again; plus 2-8 simultaneous first requests with seeded delays at the "
+          "GetOrCreate/Regist hook points. Distinct by script name"),
+    level_text=("Fault enumeration over the camera's behaviour at every handshake step against the real pull client and the real service: "
+                "requester outcome (404 / orderly close / media), registry, RTSP connection counter, camera-side connection state and the "
+                "pull goroutine ledger decide; a handshake goroutine parked in a network read long after NetTimeout is a violation"),
+    level_note="camera disconnects 'at any time during play' are sampled at two packet counts; the HLS requester is not used (its handler polls for up to 22 s)",
+    technique="runtime monitoring with fault injection by a scripted peer; ledger + goroutine-state oracle",
+    assumptions=["NetTimeout is overridden through a verif accessor so silence scripts cost seconds, not 45 s",
+                 "the 'later request pulls afresh' clause is checked with an HTTP-FLV request after each script"],
+)
+
 # checks whose texts are kept as JSON (props_json/<ID>.json)
 import json as _json, os as _os, glob as _glob
 for _f in sorted(_glob.glob(_os.path.join(_os.path.dirname(_os.path.abspath(__file__)), "props_json", "C*.json"))):
